@@ -60,6 +60,8 @@ func c01Unit(unit string, env *fw.Env) *fw.Result {
 		seqxRun(sp, []EngOp{sp.Alphabet[first]}, env, unit, res)
 	case "shapes":
 		c01Shapes(parts[1], env, unit, res)
+	case "many":
+		c01Many(parts[1], []EngOp{{Kind: "flush"}, {Kind: "bg"}, {Kind: "reopen"}, {Kind: "compact"}}, env, unit, res)
 	}
 	return res
 }
@@ -87,6 +89,7 @@ func c01Shapes(cfg string, env *fw.Env, unit string, res *fw.Result) {
 		sp.Alphabet = append(append([]EngOp{}, maint...), EngOp{Kind: "put", Key: "one", Val: "y"}, EngOp{Kind: "del", Key: s.Key})
 		seqxRun(sp, []EngOp{s}, env, unit, res)
 	}
+	c01Many(cfg, maint, env, unit, res)
 	// a commit larger than the log's 64 KiB write buffer behind a small write, then the same continuations
 	bigBatch := EngOp{Kind: "txc", Sub: []EngOp{{Kind: "put", Key: "t1", Val: "<big:30000>"}, {Kind: "put", Key: "t2", Val: "<big:30000>"}, {Kind: "put", Key: "t3", Val: "<big:30000>"}}}
 	sp.Depth = 5
@@ -94,12 +97,35 @@ func c01Shapes(cfg string, env *fw.Env, unit string, res *fw.Result) {
 	seqxRun(sp, []EngOp{{Kind: "put", Key: "s", Val: "small"}, bigBatch}, env, unit, res)
 }
 
+// many keys in one table: numbered and nested keys (different shared-prefix lengths between neighbours, several
+// restart intervals of the table's prefix compression), then maintenance / a second batch over some of them.
+// Configuration mid (memtable 600 B) makes a restart rebuild several tables of 20-30 entries from the log, which
+// then serve the reads (a table flushed in the same session is shadowed by its memtable, which stays in the pool).
+func c01Many(cfg string, maint []EngOp, env *fw.Env, unit string, res *fw.Result) {
+	var many, again []EngOp
+	mkeys := []string{"a", "ab", "abc", "abd", "b"}
+	for i := 0; i < 40; i++ {
+		mkeys = append(mkeys, fmt.Sprintf("user:%03d", i))
+	}
+	for i, k := range mkeys {
+		many = append(many, EngOp{Kind: "put", Key: k})
+		if i%3 == 1 {
+			again = append(again, EngOp{Kind: "put", Key: k})
+		} else if i%7 == 2 {
+			again = append(again, EngOp{Kind: "del", Key: k})
+		}
+	}
+	spm := &seqxSpec{Prop: "C01", Cfg: engCfgs[cfg], Depth: 4, Oracle: func(r *EngRun, prog []EngOp) string { return r.CheckGets(mkeys) }, NoDedup: true}
+	spm.Alphabet = append(append([]EngOp{}, maint...), EngOp{Kind: "abatch", Sub: again})
+	seqxRun(spm, []EngOp{{Kind: "abatch", Sub: many}}, env, unit, res)
+}
+
 func init() {
 	fw.Register(&fw.Check{
 		ID:    "C01",
 		Level: "model_checking",
 		Rule: "explicit-state search over engine programs: alphabet {put a/b/\\x00\\xff (fresh value id per write), del a/b, 3-key commit, delete+put commit, rollback, two raw batches with repeated keys (put/put, put/delete, delete/put under one sequence number), flush, bg (background flush to quiescence), reopen, compact, compact-range} on the real EngineFacade under the deterministic scheduler, all programs up to the depth per configuration (memtable size 32MiB / 1 B / 40 B, max memtables 4/2, sync immediate/none), states de-duplicated by the canonical implementation state (every layer's entries with sequence numbers, log counters, files); after each program every key is read and compared with a map model. " +
-			"Value-shape sub-run: empty, nil, 1 B, one-record, fragmented, >1 block values and a 4 KiB key followed by all maintenance sequences of length <=3, and a 90 KB three-entry commit behind a small put followed by the same continuations (memtable 32 MiB / 1 B, sync immediate / none / batch). Non-trivial = programs with >=2 steps",
+			"Value-shape sub-run: empty, nil, 1 B, one-record, fragmented, >1 block values and a 4 KiB key followed by all maintenance sequences of length <=3, a 45-key batch of numbered and nested keys (several restart intervals of one table) followed by maintenance / a second batch over a third of them - also with a 600-byte memtable, where a restart rebuilds tables of 20-30 entries from the log and reads are served by them -, and a 90 KB three-entry commit behind a small put followed by the same continuations (memtable 32 MiB / 1 B, sync immediate / none / batch). Non-trivial = programs with >=2 steps",
 		Assumptions: []string{"single client; background threads run only at explicit bg steps or when the client waits for them (a legal schedule; other schedules are C06's subject)", "state key omits wall-clock derived names; virtual time makes them functions of the program"},
 		Units: func(tier string) []string {
 			var us []string
@@ -115,6 +141,7 @@ func init() {
 			for _, cfg := range []string{"big", "tiny", "bigN", "bigB"} {
 				us = append(us, "shapes/"+cfg)
 			}
+			us = append(us, "many/mid")
 			return us
 		},
 		Run:    c01Unit,
